@@ -12,7 +12,16 @@ trap 'rm -rf "$scratch"' EXIT
 export VERIF_SCRATCH="$scratch"
 VINSTR_PKGS="mellium.im/xmpp mellium.im/xmpp/ibb mellium.im/xmpp/muc mellium.im/xmpp/receipts mellium.im/xmpp/history mellium.im/xmpp/blocklist mellium.im/xmpp/disco mellium.im/xmpp/internal/stream"
 cd "$here/engine" || exit 2
-cp /repo/go.sum go.sum 2>/dev/null
+# The tree under test is /repo; VERIF_REPO points the same build at another
+# checkout (used to try a change in a scratch worktree while /repo is busy).
+repo="${VERIF_REPO:-/repo}"
+modflag=()
+if [ "$repo" = /repo ]; then
+  cp /repo/go.sum go.sum 2>/dev/null
+else
+  sed "s#=> /repo#=> $repo#" go.mod > "$scratch/go.mod" && cp "$repo/go.sum" "$scratch/go.sum" || exit 2
+  modflag=(-modfile "$scratch/go.mod")
+fi
 overlay=()
 case "$(echo "$id" | tr A-Z a-z)" in
   c01|c02|c04|c05|c06|c09|c10|c15|c18)
@@ -22,13 +31,13 @@ case "$(echo "$id" | tr A-Z a-z)" in
     if ! (cd vinstr && go build -o "$scratch/vinstr" . >"$scratch/build.log" 2>&1); then
       echo "BUILD FAILED (vinstr)"; cat "$scratch/build.log"; exit 2
     fi
-    if ! "$scratch/vinstr" -dir /repo -out "$scratch/ov" $VINSTR_PKGS >"$scratch/vinstr.log" 2>&1; then
+    if ! "$scratch/vinstr" -dir "$repo" -out "$scratch/ov" $VINSTR_PKGS >"$scratch/vinstr.log" 2>&1; then
       echo "INSTRUMENTATION FAILED (construct the instrumenter does not support, or /repo does not type-check)"; cat "$scratch/vinstr.log"; exit 2
     fi
     overlay=(-overlay "$scratch/ov/overlay.json")
     ;;
 esac
-if ! go build "${overlay[@]}" -o "$scratch/vcheck" ./cmd/vcheck >"$scratch/build.log" 2>&1; then
+if ! go build "${modflag[@]}" "${overlay[@]}" -o "$scratch/vcheck" ./cmd/vcheck >"$scratch/build.log" 2>&1; then
   echo "BUILD FAILED (harness does not compile against /repo's working tree)"; cat "$scratch/build.log"; exit 2
 fi
 cd "$here"
